@@ -130,6 +130,31 @@ def generate(prop, module, simulate=None, seed=None):
     return vlib.load_case_files(outdir), res
 
 
+def expand_long(expect):
+    """the closed form [long |-> [head, n, elem, a, b, sep, tail]] of C36long.tla written out (transport only)"""
+    def one(h):
+        if not (isinstance(h, dict) and "long" in h):
+            return h
+        L = h["long"]
+        if L["elem"] == "int":
+            items = (str(L["a"] * i + L["b"]) for i in range(L["n"]))
+        else:
+            items = ('"e%d"' % i for i in range(L["n"]))
+        return L["head"] + L["sep"].join(items) + L["tail"]
+    return dict(expect, host=[one(h) for h in expect.get("host", [])])
+
+
+def shorten(x, limit=600):
+    """long strings (the Debug text of a 65536-element array) cut in the middle for the report"""
+    if isinstance(x, str) and len(x) > limit:
+        return "%s ...[%d characters]... %s" % (x[:limit // 2], len(x), x[-limit // 2:])
+    if isinstance(x, list):
+        return [shorten(v, limit) for v in x]
+    if isinstance(x, dict):
+        return {k: shorten(v, limit) for k, v in x.items()}
+    return x
+
+
 def run(prop, tier, seed):
     rep = vlib.Report(prop, tier, seed, "translation_validation")
     wd = vlib.workdir(prop)
@@ -141,9 +166,12 @@ def run(prop, tier, seed):
     xcases, xres = generate(prop, os.path.join(PROPS, "C36X.tla"))
     n = 80 if tier == "quick" else 1200
     rcases, rres = generate(prop, os.path.join(PROPS, "C36.tla"), simulate=n, seed=seed)
-    cases = xcases + rcases
-    if len(xcases) < 100 or len(rcases) < n:
-        raise vlib.ToolError("generators produced %d + %d cases" % (len(xcases), len(rcases)))
+    lcases, lres = generate(prop, os.path.join(PROPS, "C36long.tla"))
+    if tier == "quick":
+        lcases = [c for i, c in enumerate(sorted(lcases, key=lambda c: c["id"])) if i % 2 == seed % 2 or "len:65536" in c["feat"]]
+    cases = xcases + rcases + lcases
+    if len(xcases) < 100 or len(rcases) < n or len(lcases) < 20:
+        raise vlib.ToolError("generators produced %d + %d + %d cases" % (len(xcases), len(rcases), len(lcases)))
 
     # 3. the real binding generator + rustc on its output, 4. run
     obs, build_s, run_s, ntypes, nchunks = build_and_run(wd, cases, 800 if tier == "quick" else 520)
@@ -163,18 +191,18 @@ def run(prop, tier, seed):
     stats = {"status": {}, "keyed_failed": 0, "keyed_passed": 0}
     with open(os.path.join(wd, "obs.ndjson"), "w") as fh:
         for c, o in zip(cases, obs):
-            fh.write(json.dumps(o) + "\n")
+            fh.write(json.dumps(shorten(o)) + "\n")
             stats["status"][o.get("status")] = stats["status"].get(o.get("status"), 0) + 1
             if o.get("status") == "compile":
                 # the Abra compiler rejected the generated caller: generator out of sync, not a C36 matter
                 not_compiled.append((c["id"], o.get("msg", "")[:300]))
                 continue
-            mism = vlib.compare(c["expect"], o)
+            mism = shorten(vlib.compare(expand_long(c["expect"]), o))
             if mism:
                 if c.get("key"):
                     stats["keyed_failed"] += 1
                 key = c.get("key") or "C36|unexpected|%s|%s" % (",".join(sorted(m["field"] for m in mism)), c["id"])
-                rep.finding(key, c, o, mism,
+                rep.finding(key, c, shorten(o), mism,
                             "host saw / Abra got back something else than what was passed: " +
                             json.dumps({"decl": c["decl"].split("\n")[1], "mismatch": mism})[:600])
             elif c.get("key"):
@@ -197,10 +225,12 @@ def run(prop, tier, seed):
         "rule": "exhaustive: every one-parameter signature with a parameter type of depth <= 1 over int, float, bool, string, "
                 "a #host struct, a #host enum (void allowed as component) x 3 representative values (C36X.tla, TLC model-checking "
                 "mode, states = cases); random: signatures of arity 0..3, parameter types of depth <= 2 over the same atoms with "
-                "per-case generated #host struct/enum definitions and random values (C36.tla, tlc -simulate seed %d). "
+                "per-case generated #host struct/enum definitions and random values (C36.tla, tlc -simulate seed %d); long: arrays of "
+                "2^16-1, 2^16, 2^16+1, 2^16+300 and 2^17 ints / strings built by a loop and passed bare, in a tuple, in an option, as second "
+                "array parameter (C36long.tla; quick tier: every 2^16 case and half of the others). "
                 "non-trivial = at least one parameter that carries a scalar somewhere; distinct = distinct (declaration, caller) texts after "
                 "removing the per-case numbering of names" % seed,
-        "exhaustive_cases": len(xcases), "random_cases": len(rcases), "exhaustive": False,
+        "exhaustive_cases": len(xcases), "random_cases": len(rcases), "long_array_cases": len(lcases), "exhaustive": False,
         "exhaustive_part_complete": True,
         "host_functions_generated": len(cases), "host_types_generated": ntypes,
         "by_arity": hist(lambda c: c["arity"]), "by_depth": hist(lambda c: c["depth"]),
@@ -241,8 +271,8 @@ def replay(path):
     write_sources(src, [c])
     build_hostgen(src)
     o = run_one(src, c)
-    mism = vlib.compare(c["expect"], o)
-    print(json.dumps({"observed": o, "mismatch": mism}, indent=1))
+    mism = shorten(vlib.compare(expand_long(c["expect"]), o))
+    print(json.dumps({"observed": shorten(o), "mismatch": mism}, indent=1))
     if mism:
         print("VIOLATION property=C36 replay=%s" % path)
         return 1
